@@ -692,6 +692,25 @@ pub fn synthetic_project(seed: u64) -> Project {
             extra_keys.push("Mode: Mode".into());
         }
     }
+    if rng.chance(1, 6) {
+        // constant arithmetic in enum initialisers and `as const` objects, including the corners
+        // of integer and float arithmetic (zero divisors, shifts past the word size, overflow)
+        let pool = [
+            "100 % 0", "1 / 0", "-1 / 0", "0 / 0", "2 ** 1024", "1 << 40", "1 << 31", "-1 >>> 0", "-1 >> 40", "5 % -0", "0x7fffffff + 1",
+            "9007199254740993 * 3", "-9223372036854775807 - 2", "9223372036854775807 + 1", "4611686018427387904 * 4", "~0", "7 / 2", "2 ** -1", "(1 + 2) * 3",
+            "1e308 * 10", "0.1 + 0.2", "-0", "+\"3\"", "1 | 2 | 4", "6 & 3 ^ 1", "10 - 20",
+        ];
+        let n = rng.range(2, 5);
+        let mut members = vec![];
+        for m in 0..n {
+            members.push(format!("  M{} = {},", m, pool[rng.below(pool.len())]));
+        }
+        extra_decls.push(format!("export enum Calc {{\n{}\n}}", members.join("\n")));
+        extra_decls.push(format!("export const LIMITS = {{ a: {}, b: {}, c: [{}, {}] }} as const;", pool[rng.below(pool.len())], pool[rng.below(pool.len())], pool[rng.below(pool.len())], pool[rng.below(pool.len())]));
+        extra_decls.push("export type Limits = typeof LIMITS;".into());
+        extra_decls.push("export type CalcUser = { c: Calc; first: Calc.M0; lim?: Limits[\"a\"] };".into());
+        extra_keys.push(["Calc: Calc", "CalcUser: CalcUser", "Limits: Limits"][rng.below(3)].into());
+    }
     if rng.chance(1, 3) && !objs0.is_empty() {
         let a = *rng.pick(&objs0);
         match rng.below(4) {
